@@ -21,7 +21,8 @@
 //	            returned by the backend's Next func: Accept / Refuse (close on connect) / KickLogin /
 //	            KickConfig / KickPlay (disconnect packet before JoinGame) / Stall (never answers the
 //	            login). BackendConn: Send, SendKeepAlive, Kick, Close, IsClosed, WaitJoined, WaitClosed,
-//	            Received (pass-through payloads seen in play), Phase.
+//	            Received (every payload seen in play), KeepAlives, Phase, AcceptedAt / JoinedAt / EndedAt
+//	            timestamps. Backend: Conns, Open, WaitConn, Close.
 //	client.go   Client: Dial + Login (handshake, login start, SetCompression, LoginSuccess, 1.20.2+
 //	            LoginAcknowledged / configuration acks, StartUpdate acks during switches), WaitJoins,
 //	            Send, Received, WaitReceived, IsClosed, Kicked.
